@@ -88,20 +88,20 @@ Definition KEYS : list key := ["a:1"; "a:2"; "b:1"; "b:2"; "c"].
 Definition h_F20 : list (Z * tev) :=
   [(1, TSet "a:1" (VInt 1) 1600 ["ta"]); (1, TSet "a:2" (VInt 1) 4 ["ta"]); (9, TDeleteTags "ta")].
 Theorem tags_complete_refuted :
-  ok_tags KEYS [] h_F20 (run_tags REG KEYS empty h_F20) = false /\ excl_f20 REG KEYS empty h_F20 = true.
+  ok_tags KEYS [] (lift h_F20) (run_tags REG KEYS empty (lift h_F20)) = false /\ excl_f20 REG KEYS empty h_F20 = true.
 Proof. vm_compute. split; reflexivity. Qed.
 
 (* F21: unregistered tag: delete does not prune; the re-created, untagged key is deleted by delete_tags *)
 Definition h_F21 : list (Z * tev) :=
   [(1, TSet "c" (VInt 1) 0 ["u"]); (1, TDel "c"); (1, TSet "c" (VInt 5) 0 []); (1, TDeleteTags "u")].
 Theorem tags_precise_refuted :
-  ok_tags KEYS [] h_F21 (run_tags REG KEYS empty h_F21) = false /\ excl_f21 REG KEYS [] h_F21 = true.
+  ok_tags KEYS [] (lift h_F21) (run_tags REG KEYS empty (lift h_F21)) = false /\ excl_f21 REG KEYS [] h_F21 = true.
 Proof. vm_compute. split; reflexivity. Qed.
 
 (* the same situations with registered tag / equal TTLs satisfy the oracle (non-vacuity of the oracle itself) *)
 Example tags_ok_example :
   let h := [(1, TSet "a:1" (VInt 1) 1600 ["ta"]); (1, TSet "a:2" (VInt 1) 1600 ["ta"]); (1, TSet "c" (VInt 2) 0 []);
             (1, TDel "a:2"); (1, TSet "a:2" (VInt 3) 0 []); (9, TDeleteTags "ta")] in
-  ok_tags KEYS [] h (run_tags REG KEYS empty h) = true /\ excl_f20 REG KEYS empty h = false /\ excl_f21 REG KEYS [] h = false /\
-  snd (last (run_tags REG KEYS empty h) ([], [])) = [false; true; false; false; true].
+  ok_tags KEYS [] (lift h) (run_tags REG KEYS empty (lift h)) = true /\ excl_f20 REG KEYS empty h = false /\ excl_f21 REG KEYS [] h = false /\
+  snd (last (run_tags REG KEYS empty (lift h)) ([], [])) = [false; true; false; false; true].
 Proof. vm_compute. repeat split; reflexivity. Qed.
